@@ -323,8 +323,8 @@ func (t *NativeArrayTuple[T]) ConcatVal(other Value) (Value, Value) {
 			for i, element := range *t {
 				newList[i] = element.ToValue()
 			}
-			for i, element := range o.Elements() {
-				newList[i+o.Length()] = element
+			for _, element := range o.Elements() {
+				newList = append(newList, element)
 			}
 			return Ref(&newList), Undefined
 		case ArrayTuple:
@@ -332,8 +332,8 @@ func (t *NativeArrayTuple[T]) ConcatVal(other Value) (Value, Value) {
 			for i, element := range *t {
 				newList[i] = element.ToValue()
 			}
-			for i, element := range o.Elements() {
-				newList[i+o.Length()] = element
+			for _, element := range o.Elements() {
+				newList = append(newList, element)
 			}
 			return Ref(&newList), Undefined
 		}
